@@ -107,4 +107,63 @@ mod verif_c03_load {
             (Err(_), _) => assert!(false, "a type whose default_value always succeeds failed to load"),
         }
     }
+
+    // ---- load_from_source over a minimal source (no shared Mem state): is it decidable at all? ----
+    struct Tiny { present: [bool; 2], bytes: [u8; 2] }
+    impl Source for Tiny {
+        fn read(&self, _id: &str, ext: &str) -> io::Result<crate::source::FileContent> {
+            let i = if ext == "x" { 0 } else if ext == "y" { 1 } else { return Err(io::Error::from(io::ErrorKind::NotFound)); };
+            if self.present[i] { Ok(crate::source::FileContent::Slice(&self.bytes[i..i + 1])) } else { Err(io::Error::from(io::ErrorKind::NotFound)) }
+        }
+        fn read_dir(&self, _id: &str, _f: &mut dyn FnMut(crate::source::DirEntry)) -> io::Result<()> { Err(io::Error::from(io::ErrorKind::NotFound)) }
+        fn exists(&self, _e: crate::source::DirEntry) -> bool { false }
+    }
+
+    // @h name=c03_tiny_first_present tier=parked timeout=240
+    #[kani::proof]
+    #[kani::unwind(5)]
+    fn c03_tiny_first_present() {
+        let b: u8 = kani::any();
+        kani::assume(b != 0xFF);
+        let src = Tiny { present: [true, true], bytes: [b, 7] };
+        let id = SharedString::from("a");
+        let r = load_from_source::<X2>(&src, &id);
+        match &r { Ok(v) => assert!(v.0.b0 == b && v.0.ext == 0 && v.0.len == 1), Err(_) => assert!(false) }
+        std::mem::forget(r);
+    }
+
+    // @h name=c03_tiny_second_present tier=parked timeout=240
+    #[kani::proof]
+    #[kani::unwind(5)]
+    fn c03_tiny_second_present() {
+        let b: u8 = kani::any();
+        kani::assume(b != 0xFF);
+        let src = Tiny { present: [false, true], bytes: [3, b] };
+        let id = SharedString::from("a");
+        let r = load_from_source::<X2>(&src, &id);
+        match &r { Ok(v) => assert!(v.0.b0 == b && v.0.ext == 1), Err(_) => assert!(false) }
+        std::mem::forget(r);
+    }
+
+    // no extension at all: default_value alone decides
+    #[derive(Clone, Copy, PartialEq, Debug)]
+    struct D0(u8);
+    impl crate::loader::Loader<D0> for L { fn load(_c: std::borrow::Cow<[u8]>, _e: &str) -> Result<D0, BoxedError> { Ok(D0(1)) } }
+    impl Asset for D0 {
+        const EXTENSIONS: &'static [&'static str] = &[];
+        type Loader = L;
+        fn default_value(_id: &SharedString, error: BoxedError) -> Result<Self, BoxedError> { std::mem::forget(error); Ok(D0(0xD0)) }
+    }
+    // @h name=c03_load_ext0_default tier=quick timeout=300
+    #[kani::proof]
+    #[kani::unwind(5)]
+    fn c03_load_ext0_default() {
+        let mem = Mem::empty();
+        let id = SharedString::from("a");
+        let r = load_from_source::<D0>(&mem, &id);
+        match &r { Ok(v) => assert!(v.0 == 0xD0), Err(_) => assert!(false, "default_value returned Ok but the load failed") }
+        assert!(mem.reads.get() == 0);
+        kani::cover!(true);
+        std::mem::forget(r);
+    }
 }
